@@ -52,6 +52,10 @@ CHECKS = {
          "From a pool of 16 definitions (records, generic record and three users at two instantiations, union, `type ... and ...` group, package_info, top-level variable, functions with match temporaries / _.Field lambdas / many type variables, generic function and user) every dependency-respecting sequence of up to 4 (quick) / 5 (thorough) distinct definitions x every cut into at most 2 / 3 files of one invocation x a .foi variant for declaration-only first files is transpiled by the fc built from the working tree; for every definition the text of the Go declarations it owns (go/parser), with _vN numbers dropped, must equal its text in the minimal history, and exactly gen_X.go per X.fo argument (none for .foi) must be written.",
          "Temporaries are compared modulo any numbering (see DESIGN.md C07 for why first-occurrence renumbering would be too strict).",
          "DESIGN.md C07"),
+ "C01": ("bounded-exhaustive type-directed enumeration of programs (choice-tree explorer over productions, fuel splits and leaves), each transpiled by fc, compiled with go build and executed; stdout compared with a reference evaluator (strict, left-to-right, lexically scoped big-step semantics)",
+         "Every well-typed program with at most 2 constructs over the full alphabet (about 75 productions: arithmetic, comparison, equality on 5 types, && || not, if/else, if-only, elif, union match in 3 variants, generic-union match, string match, let over 7 binder types, destructuring, local functions, lambdas, full and partial application, pipes, tuples, slices and 15 slice functions, records, constructors, interpolation, sequencing, lifted top-level functions with and without annotations) in every root position; thorough adds all programs with exactly 3 constructs over the control-flow/closure constructs and exactly 4 over the closure core. Traced leaves make order and multiplicity of every evaluation visible in stdout, bool/union leaves steer both branches of every if/match/&&/||. Programs are batched 300 per go build; a verdict is only issued on a single-program re-run.",
+         "Programs larger than the bound and constructs outside the alphabet are not covered; the reference evaluator is trusted after cross-validation against fc and tinyfo (C17). One known finding (partial-application argument re-evaluation) is attributed by a defect model.",
+         "DESIGN.md C01"),
 }
 NOT_APPLICABLE = []
 
